@@ -514,9 +514,9 @@ func Sharing(r *rand.Rand, o SharingOpts) *Grammar {
 	g.NTs[1] = g.Mk(OpAny, alts...)
 	consumer := func() *Expr {
 		m := func() *Expr { return g.Ref(1) }
-		n := 11
+		n := 13
 		if o.Trims {
-			n = 14
+			n = 16
 		}
 		switch r.Intn(n) {
 		case 0:
@@ -541,7 +541,11 @@ func Sharing(r *rand.Rand, o SharingOpts) *Grammar {
 			return g.Mk(OpAny, g.Mk(OpSingle, m()), leaf())
 		case 10:
 			return g.Mk(OpSuppress, g.Mk(OpAny, m(), leaf()))
-		case 11, 12:
+		case 11:
+			return g.Mk(OpSeqRetSingle, m())
+		case 12:
+			return g.Mk(OpAny, g.Mk(OpSeqRetSingle, m()), leaf())
+		case 13, 14:
 			e := g.Mk(OpRTrim, m())
 			e.C = byte(1 + r.Intn(2)) // WsSpaces, WsSpacesNl
 			return e
